@@ -1,5 +1,10 @@
 #!/bin/sh
-# regenerate _CoqProject from the files on disk (gen/ is compiled separately)
+# Regenerate a coq_makefile project from the files on disk.
+#   mk_coqproject.sh                -> _CoqProject / Makefile over every directory (setup_cmd)
+#   mk_coqproject.sh C08 [C02 ...]  -> _CoqProject.C08 / Makefile.C08 over Common + the named directories
+# gen/ (generated case files) is compiled separately with plain coqc.
 cd "$(dirname "$0")"
-{ echo "-R . CJ"; echo "-arg -w -arg -notation-overridden,-deprecated-hint-without-locality,-deprecated-hint-rewrite-without-locality"; find Common C?? -name '*.v' | sort; } > _CoqProject
-coq_makefile -f _CoqProject -o Makefile >/dev/null
+if [ $# -eq 0 ]; then name=""; dirs="Common $(ls -d C[0-9][0-9] 2>/dev/null)"; else name=".$1"; dirs="Common $*"; fi
+{ echo "-R . CJ"; echo "-arg -w -arg -notation-overridden,-deprecated-hint-without-locality,-deprecated-hint-rewrite-without-locality"
+  for d in $dirs; do find "$d" -name '*.v' | sort; done; } > "_CoqProject$name"
+coq_makefile -f "_CoqProject$name" -o "Makefile$name" >/dev/null
